@@ -79,7 +79,7 @@ impl Case {
 }
 
 #[derive(Debug, Clone)]
-enum Obs {
+pub enum Obs {
     Refused(String),
     /// SX126x: SetPaConfig bytes, SetTxParams bytes
     P126 { pa: Option<[u8; 4]>, tx: Option<[u8; 2]> },
@@ -172,8 +172,18 @@ fn observe(c: &Case) -> Obs {
     }
 }
 
-fn fail(c: &Case, rule_fp: &str, detail: String) -> Failure {
-    Failure::new("power-decode", c.json(), detail).with_fp(format!("{rule_fp}/{}", VARIANTS[c.variant]))
+/// what is judged: the request (variant, dBm, band) and the case file a failure carries
+pub struct Judged<'a> {
+    pub variant: usize,
+    pub dbm: i64,
+    pub band: Option<u32>,
+    pub case: &'a dyn Fn() -> Value,
+    /// appended to every fingerprint ("" for the stateless sweep)
+    pub fp_suffix: &'a str,
+}
+
+fn fail(c: &Judged<'_>, rule_fp: &str, detail: String) -> Failure {
+    Failure::new("power-decode", (c.case)(), detail).with_fp(format!("{rule_fp}/{}{}", VARIANTS[c.variant], c.fp_suffix))
 }
 
 /// clamp edges of the request domain, for the non-triviality rule
@@ -188,6 +198,11 @@ pub fn range_of(variant: usize, band: Option<u32>) -> (i64, i64) {
 }
 
 fn judge(c: &Case, o: &Obs) -> Result<(), Failure> {
+    judge_parts(&Judged { variant: c.variant, dbm: c.dbm, band: c.band, case: &|| c.json(), fp_suffix: "" }, o)
+}
+
+/// the decode-and-compare oracle on an observation, wherever it was taken
+pub fn judge_parts(c: &Judged<'_>, o: &Obs) -> Result<(), Failure> {
     let v = VARIANTS[c.variant];
     let req = c.dbm;
     match o {
